@@ -82,6 +82,12 @@ class SymArray(_np.ndarray):
             return out[0]
         return r
 
+    def astype(self, dtype, *a, **k):
+        # symbolic entries stand for floats already: a cast to float keeps them (numpy would call float() on each entry)
+        if self.dtype == object and dtype in (float, _np.float64, 'float', 'float64', 'd') and any(isinstance(v, (SV, SInt)) for v in self.ravel()):
+            return self.copy()
+        return _np.ndarray.astype(self, dtype, *a, **k)
+
     def __setitem__(self, key, val):
         if isinstance(key, _np.ndarray) and key.dtype == object and key.shape == self.shape and any(isinstance(k, SB) for k in key.ravel()):
             base = self.view(_np.ndarray)
@@ -413,7 +419,7 @@ class NPShim(types.ModuleType):
                             raise TypeError("int() argument must be a string, a bytes-like object or a real number, not 'complex'")
                         else:
                             out[idx] = int(v)
-                    return out
+                    return _sa(out)
                 if out.size and (isnum(first) or isinstance(first, SV)) and not vkw.get('otypes'):
                     for idx, v in _np.ndenumerate(out):
                         if isnum(v) or isinstance(v, SV):
@@ -426,6 +432,6 @@ class NPShim(types.ModuleType):
                             if not hasattr(v, 'value'):
                                 raise
                             out[idx] = v.value          # Obs.__float__ is float(self.value) (decided in C19 views); the symbolic value stands for it
-                return out
+                return _sa(out)
             return inner(x, *aa, **kk)
         return g
